@@ -48,6 +48,11 @@ RESET_EXEMPT_OBS = {("IState", "_cache"): "opt-in cross-episode @cache, document
 
 def run(ck, an, tier):
     s1(ck, an)
+    clock_readers(ck, an)
+    from rules import C15
+    from sa.report import Renamed
+    from rules import ledger
+    C15.s3(ledger._Only(Renamed(ck, "C15:"), {"configured-length-fixed", "reset-passes-length"}), an)      # the episode length of a replay is the configured one: a per-call override does not stick
     module_level_objects(ck, an)
     s2(ck, an)
     s3(ck, an)
@@ -55,6 +60,29 @@ def run(ck, an, tier):
     s5(ck, an)
     s6(ck, an)
     s7(ck, an)
+
+
+CLOCK_READERS = {"Future.lifespan", "FutureChain._lead_contract_idx", "FutureChain.lead_contract"}     # the readers named in finding F7
+
+
+def clock_readers(ck, an):
+    """The process-wide contract clock (finding F7) is read by the chain resolution and by lifespan() only: a new reader is a
+    new way for one environment's time to decide another environment's behaviour."""
+    n_reads = 0
+    for f in an.functions():
+        if f.module.name.startswith("_fixture"):
+            continue
+        called = {id(c.func) for c in walk_function(f.node) if isinstance(c, ast.Call)}
+        for n in walk_function(f.node):
+            # `<contract>.now` / `AbstractContract.now` read as a value (`self.now()` of the environment and `datetime.now()` are calls, not this attribute)
+            if isinstance(n, ast.Attribute) and n.attr == "now" and isinstance(n.ctx, ast.Load) and id(n) not in called:
+                n_reads += 1
+                ok = all(g.short in CLOCK_READERS for g in an.attributed(f))
+                ck.check(ok, "GLOBAL", "S1.process-wide-clock-readers", f.short, f"{f.module.relpath}:{n.lineno}", f"read of the process-wide contract clock by {f.short} (reviewed, finding F7)",
+                         f"{f.short} reads the process-wide contract clock {ast.unparse(n)}: its result now depends on whichever environment in the process dispatched an event last", construct=stmt_text(n))
+    ck.floor("reads of the process-wide contract clock", n_reads, 3)
+    own_callers(ck, an, "S1.process-wide-clock-readers", "Future.lifespan", {"FutureChain.lifespan"}, rule="GLOBAL", min_sites=0)
+    own_callers(ck, an, "S1.process-wide-clock-readers", "FutureChain.lifespan", set(), rule="GLOBAL", min_sites=0)
 
 
 def s1(ck, an):
